@@ -202,7 +202,7 @@ package main
 //@   requires ctx != nil
 //   (label names: established by initPrometheus - ensures, checked - and kept by the immutability of every field on the way)
 //@   assumes ctx.metrics != nil && promLabels(ctx.metrics.promMetrics)
-//@   flag nosafety paths
+//@   flag paths
 //@   at call Push ghost snowflake.registered = true
 //@   ensures {registered} r.registered
 //@   ensures r != nil && fresh(r) && r.id == id && r.natType == natType && r.proxyType == proxyType && r.clients == clients
@@ -213,7 +213,6 @@ package main
 //@ channel BrokerContext.proxyPolls carries value != nil && value.offerChannel != nil
 //@ func (ctx *BrokerContext) Broker()
 //@   props C02, C03, C04, C14
-//@   flag nosafety
 //@   requires ctx != nil
 //@   loop 1 invariant {one-goroutine-per-registered-poll} calls(AddSnowflake) == spawns(Broker$1)
 //
@@ -239,7 +238,6 @@ package main
 // GetBridgeInfo: the entry stored under exactly the fingerprint asked for, or ErrBridgeNotFound.
 //@ func (h *bridgeListHolder) GetBridgeInfo(fingerprint bridgefingerprint.Fingerprint) (info BridgeInfo, err error)
 //@   props C02
-//@   flag nosafety
 //@   requires h != nil
 //@   ensures {unknown-fingerprint-is-an-error} err == nil || err == ErrBridgeNotFound
 //@   ensures {answers-from-the-entry-of-that-fingerprint} calls(RLock) == 1 && calls(RUnlock) == 1
@@ -248,7 +246,7 @@ package main
 // received on this poll's private channel.
 //@ func (ctx *BrokerContext) RequestOffer(id string, proxyType string, natType string, clients int) (offer *ClientOffer)
 //@   props C02, C04, C14
-//@   flag concurrent nosafety paired-send=Broker paired-recv=Broker$1
+//@   flag concurrent paired-send=Broker paired-recv=Broker$1
 //@   requires ctx != nil
 //@   at call send assert {registers-this-poll} ch == ctx.proxyPolls && value != nil && fresh(value) && value.id == id && value.proxyType == proxyType && value.natType == natType && value.clients == clients && fresh(value.offerChannel)
 //@   ensures {waits-on-its-own-channel-only} sends(ctx.proxyPolls) == old(sends(ctx.proxyPolls)) + 1
@@ -300,7 +298,6 @@ package main
 //
 //@ func sendClientResponse(resp *messages.ClientPollResponse, response *[]byte) (err error)
 //@   props C14
-//@   flag nosafety
 //@   requires resp != nil && response != nil
 //@   after call EncodePollResponse ghost lastEncLen = len(ret0)
 //@   ensures {response-is-the-message-just-encoded} err == nil ==> calls(EncodePollResponse) == 1 && len(*response) == lastEncLen
@@ -311,7 +308,7 @@ package main
 //@ ghost var ansSends0 int
 //@ func (i *IPC) ProxyAnswers(arg messages.Arg, response *[]byte) (err error)
 //@   props C02, C04, C14
-//@   flag concurrent nosafety lifetime=After
+//@   flag concurrent lifetime=After
 //@   requires i != nil && i.ctx != nil && response != nil
 //@   at call send assert {routed-by-session-id} ch == snowflake.answerChannel && value == answer && success
 //@   at call select ghost ansSends0 = sends(snowflake.answerChannel)
@@ -348,7 +345,6 @@ package main
 // list is forgotten), on failure the old list stays.
 //@ func (h *bridgeListHolder) LoadBridgeInfo(reader io.Reader) (err error)
 //@   props C02
-//@   flag nosafety
 //@   requires h != nil
 //@   loop 1 invariant h.bridgeInfo == old(h.bridgeInfo)
 //   encoding/json leaves a field that the record omits as it was: every line is decoded into a BLANK record, so that
@@ -463,7 +459,6 @@ package main
 //
 //@ func NewRoundedCounterVec(opts prometheus.CounterOpts, labelNames []string) (r *RoundedCounterVec)
 //@   props C14
-//@   flag nosafety
 //@   requires len(labelNames) <= 3
 //@   ensures {vector-carries-its-label-names} r != nil && r.MetricVec != nil && r.MetricVec.nl == len(labelNames) && (len(labelNames) > 0 ==> r.MetricVec.l0 == labelNames[0]) && (len(labelNames) > 1 ==> r.MetricVec.l1 == labelNames[1]) && (len(labelNames) > 2 ==> r.MetricVec.l2 == labelNames[2])
 //
@@ -474,7 +469,6 @@ package main
 //
 //@ func initPrometheus() (r *PromMetrics)
 //@   props C14
-//@   flag nosafety
 //@   ensures {label-names-as-the-handlers-use-them} promLabels(r)
 //
 // ---- lock discipline (C20) ----
